@@ -109,36 +109,38 @@ StripLead(d) == LET j == FirstNe(d, 0, 1) IN IF j = 0 THEN <<0>> ELSE SubSeq(d, 
 StripTrail(d) == SubSeq(d, 1, LastNe(d, 0, Len(d)))
 AllZero(d) == FirstNe(d, 0, 1) = 0
 
-\* The same two operations on limbs of five decimal digits (base 100000), so that 2^1023 and
-\* 2^-1074 stay cheap.  Doubling: a limb carries iff it is >= 50000, whatever comes in.
-\* Division by 32: 100000 is a multiple of 32, so the remainder of a limb is its own residue;
-\* one more limb (five fractional digits) is produced.
-LimbBase == 100000
+\* The same two operations on limbs of seven decimal digits (base 10^7), so that 2^1023 and
+\* 2^-1074 stay cheap.  Doubling: a limb carries iff it is >= 5000000, whatever comes in.
+\* Division by 128: 10^7 is a multiple of 128, so the remainder of a limb is its own residue
+\* (and (127 * 10^7 + 9999999) still fits 31 bits); one more limb (seven fractional digits) is
+\* produced.
+LimbBase == 10000000
 RECURSIVE NatLimbs(_)
 NatLimbs(n) == IF n < LimbBase THEN <<n>> ELSE Append(NatLimbs(n \div LimbBase), n % LimbBase)
 DblL(d) == LET n == Len(d)
-               body == Tup([i \in 1..n |-> (2 * d[i] + (IF i < n /\ d[i+1] >= 50000 THEN 1 ELSE 0)) % LimbBase])
-           IN IF d[1] >= 50000 THEN <<1>> \o body ELSE body
-Div32L(d) == LET n == Len(d) IN
-             Tup([i \in 1..n+1 |-> IF i <= n THEN (d[i] + (IF i > 1 THEN (d[i-1] % 32) * LimbBase ELSE 0)) \div 32
-                                   ELSE ((d[n] % 32) * LimbBase) \div 32])
+               body == Tup([i \in 1..n |-> (2 * d[i] + (IF i < n /\ d[i+1] >= 5000000 THEN 1 ELSE 0)) % LimbBase])
+           IN IF d[1] >= 5000000 THEN <<1>> \o body ELSE body
+Div128L(d) == LET n == Len(d) IN
+              Tup([i \in 1..n+1 |-> IF i <= n THEN (d[i] + (IF i > 1 THEN (d[i-1] % 128) * LimbBase ELSE 0)) \div 128
+                                    ELSE ((d[n] % 128) * LimbBase) \div 128])
 RECURSIVE DblLN(_, _)
 DblLN(d, k) == IF k = 0 THEN d ELSE DblLN(DblL(d), k - 1)
-RECURSIVE Div32LN(_, _)
-Div32LN(d, k) == IF k = 0 THEN d ELSE Div32LN(Div32L(d), k - 1)
-Limb5(x) == <<x \div 10000, (x \div 1000) % 10, (x \div 100) % 10, (x \div 10) % 10, x % 10>>
-RECURSIVE LimbDigits(_, _, _)          \* decimal digits of limbs lo..hi (five per limb)
+RECURSIVE Div128LN(_, _)
+Div128LN(d, k) == IF k = 0 THEN d ELSE Div128LN(Div128L(d), k - 1)
+Limb7(x) == <<x \div 1000000, (x \div 100000) % 10, (x \div 10000) % 10, (x \div 1000) % 10,
+              (x \div 100) % 10, (x \div 10) % 10, x % 10>>
+RECURSIVE LimbDigits(_, _, _)          \* decimal digits of limbs lo..hi (seven per limb)
 LimbDigits(d, lo, hi) ==
-  IF lo > hi THEN <<>> ELSE IF lo = hi THEN Limb5(d[lo])
+  IF lo > hi THEN <<>> ELSE IF lo = hi THEN Limb7(d[lo])
   ELSE LET mid == (lo + hi) \div 2 IN LimbDigits(d, lo, mid) \o LimbDigits(d, mid + 1, hi)
 
 \* |v| = ip.fp exactly; ip without leading zeros (<<0>> for zero), fp without trailing zeros
-\*   e >= 0: m doubled e times;   e < 0: m * 2^(5q+e) divided q times by 32, q = ceil(-e / 5)
+\*   e >= 0: m doubled e times;   e < 0: m * 2^(7q+e) divided q times by 128, q = ceil(-e / 7)
 Dec(m, e) ==
   IF e >= 0 THEN LET L == DblLN(NatLimbs(m), e) IN [ip |-> StripLead(LimbDigits(L, 1, Len(L))), fp |-> <<>>]
-  ELSE LET q == (-e + 4) \div 5
-           base == DblLN(NatLimbs(m), 5 * q + e)
-           all == Div32LN(base, q)
+  ELSE LET q == (-e + 6) \div 7
+           base == DblLN(NatLimbs(m), 7 * q + e)
+           all == Div128LN(base, q)
        IN [ip |-> StripLead(LimbDigits(all, 1, Len(base))),
            fp |-> StripTrail(LimbDigits(all, Len(base) + 1, Len(all)))]
 \* the same by single decimal digits (used by the law that cross-checks the two)
